@@ -510,6 +510,7 @@ def nsmap_table(ctx, rule):
     nsf = ctx.func("pyxform.survey:Survey.get_nsmap", rule)
     it = ctx.interp(rule)
     out = []
+    base_before = dict(ctx.consts.get("pyxform.constants", "NSMAP", rule))
     for feats in (None, ["create", "update", "offline"]):
         for ns in (None, *_NS_CASES):
             s = Obj(None, {"entity_features": feats, "namespaces": ns}, name="survey")
@@ -523,6 +524,14 @@ def nsmap_table(ctx, rule):
                     break
                 desc = f"entity_features={'set' if feats else 'unset'} namespaces={ns!r} call#{rnd}"
                 out.append((desc, feats, ns, res))
+    # the shared table of standard namespaces must come out of all those calls untouched: a form's own namespaces
+    # written into it would be declared on every later form converted in the same process
+    base_after = ctx.consts.get("pyxform.constants", "NSMAP", rule)
+    if dict(base_after) != base_before:
+        leaked = sorted(set(base_after) ^ set(base_before)) or sorted(k for k in base_before if base_after.get(k) != base_before[k])
+        out.append((f"shared NSMAP table mutated by get_nsmap (leaked {leaked})", ["create"], None, "shared-table-mutated"))
+        base_after.clear()
+        base_after.update(base_before)
     return out
 
 
